@@ -1,4 +1,48 @@
 (* C01 - build(Config(f, ...)) calls f with exactly the configured arguments. *)
-From Fiddle Require Import PyBase PySlice Sig ArgStore ArgSpec PyCall Anchors.
+From Fiddle Require Import PyBase PySlice Sig ArgStore ArgSpec PyCall C01Check Anchors PyCall_proofs.
 
-Example C01_placeholder : True. Proof. exact I. Qed.
+(* For every valid signature and every argument store satisfying the C01 storage invariant, what the
+   callee observes after Fiddle's transformation + CPython's binding is the reference view: every
+   parameter gets its configured value, else its own default, else the call fails on both sides;
+   *args is the contiguous run of stored indices from var_positional_start; **kwargs the stored
+   names that are not nameable parameters, in store order. *)
+Theorem C01_build_binds_exactly : forall sg st,
+  valid_sig sg = true -> inv01_b sg st = true -> build1 sg st = reference_view sg st.
+Proof. exact build_binds_exactly. Qed.
+Print Assumptions C01_build_binds_exactly.
+
+(* no value is ever bound to a different parameter *)
+Theorem C01_no_value_moves : forall sg st vw,
+  valid_sig sg = true -> inv01_b sg st = true -> build1 sg st = Some vw ->
+  forall p i x, nth_error sg i = Some p ->
+  (pk p = PosOnly \/ pk p = PosOrKw \/ pk p = KwOnly) ->
+  In (pname p, PV x) vw ->
+  let key := match pk p with PosOnly => kpos i | _ => KName (pname p) end in
+  (sget st key = Some x) \/ (sget st key = None /\ pdefault p = Some x).
+Proof. exact no_value_moves. Qed.
+Print Assumptions C01_no_value_moves.
+
+(* non-vacuity: def f(a, b=10, /, c=20, d=30, *args, k, m=5, **kw) with
+   {0: 1, 'c': 33, 4: 100, 5: 101, 'k': 66, 'z': 99} *)
+Theorem C01_nonvacuous :
+  valid_sig ex_sg = true /\ inv01_b ex_sg ex_st = true /\
+  build1 ex_sg ex_st =
+  Some [ (1%N, PV (RA (AInt 1))); (2%N, PV (RA (AInt 10))); (3%N, PV (RA (AInt 33)));
+         (4%N, PV (RA (AInt 30))); (5%N, PTuple [RA (AInt 100); RA (AInt 101)]);
+         (6%N, PV (RA (AInt 66))); (7%N, PV (RA (AInt 5)));
+         (8%N, PDict [(9%N, RA (AInt 99))]) ].
+Proof. exact ex_nonvacuous. Qed.
+Print Assumptions C01_nonvacuous.
+
+Theorem C01_missing_required :
+  valid_sig ex_sg = true /\ inv01_b ex_sg ex_st_missing = true /\
+  build1 ex_sg ex_st_missing = None /\ reference_view ex_sg ex_st_missing = None.
+Proof. exact ex_missing_required. Qed.
+Print Assumptions C01_missing_required.
+
+Theorem C01_missing_required_kw :
+  inv01_b ex_sg ex_st_missing_kw = true /\
+  transform_build ex_sg ex_st_missing_kw <> None /\
+  build1 ex_sg ex_st_missing_kw = None.
+Proof. exact ex_missing_required_kw. Qed.
+Print Assumptions C01_missing_required_kw.
